@@ -6,11 +6,10 @@ import VrlModel.Conv.Num
 namespace C29
 open Conv
 
-/-- `abs` returns the magnitude -/
+/-- `abs` returns the magnitude; integers wrap only at the minimum integer
+    (`abs(i64::MIN) = i64::MIN`, the magnitude 2⁶³ not being an `i64`). -/
 def specAbs (n : Int) (r : Res Value) : Bool :=
-  !inI64 n || r == .ok (.int (n.natAbs : Int))
-
-def D_min_negate (n : Int) : Bool := n == i64Min
+  !inI64 n || r == .ok (.int (if n = i64Min then i64Min else (n.natAbs : Int)))
 
 /-- truncated-remainder rules: `a = b·q + r` with `q` the quotient rounded toward zero,
     i.e. `|r| < |b|` and `r` is zero or has the sign of `a`, and `b` divides `a - r`. -/
